@@ -32,6 +32,13 @@ CLAIMED = {
          "Listed known finding F-QER-RELABEL is tolerated through named slack only for sessions whose history triggers it.",
          "Randomised histories inside the generators' envelope (DESIGN A.1); kill points are between script steps; packet-level Classify=Denote is argued compositionally (field-wise image) rather than sampled. " + TRUST,
          "5 C03"),
+ "C09": ("TLA+ R-spec BessImage (QerValuesOK in BigNat arithmetic, SoundSessQer) validated by TLC on the QoS entries the real agent programs; systematic enumeration of QER-list shapes",
+         "TLC judges every appQERLookup / sessionQERLookup entry recorded after each accepted request of the real agent: gate as signalled, pir = MBR x 125 and cir = max(GBR x 125, 1) for GBR <= MBR, "
+         "unmetered iff both rates are zero, cbs/pbs/ebs at least the configured minimum of the QFI and at least floor(rate x duration) (exact limb arithmetic), and the QER represented in "
+         "sessionQERLookup is referenced by every PDR of the session (existential choice of the session-level QER that explains all three tables). Besides seeded random sessions with boundary rates and "
+         "per-QFI burst configurations, the session shapes (2-3 PDRs x every ordered QER list over three ids x GBR / MBR patterns; 278 528 shapes) are enumerated: a seed-dependent stride in the quick tier, all of them in the thorough tier.",
+         "UP4 meters are judged by C04 once built; re-labelling after QER-creating/updating modifications is the listed known finding F-QER-RELABEL (named slack). " + TRUST,
+         "5 C09"),
 }
 
 def hooks_commits():
